@@ -2,7 +2,14 @@ package props
 
 import (
 	"fmt"
+	"os"
+	"runtime"
+	"sync"
+	"sync/atomic"
 	"testing"
+	"time"
+
+	"github.com/facebookincubator/dns/dnsrocks/dnsdata/rdb"
 
 	"pgregory.net/rapid"
 
@@ -53,6 +60,15 @@ func TestC14(t *testing.T) {
 		}
 		return
 	}
+	// overlapping catch-ups on one RocksDB secondary with concurrent closest-key readers
+	for i, b := range []kit.Backend{kit.RDBv1, kit.RDBv2} {
+		if (kit.Shard()+i)%2 == 0 || kit.NShards() == 1 {
+			c14CatchUpStress(t, b, 4, kit.Pick(150, 1500))
+			kit.Eval()
+			kit.Class("concurrent-catch-up:" + b.String())
+			kit.NonTrivial(fmt.Sprintf("concurrent-catch-up|%s|%d", b, kit.Shard()))
+		}
+	}
 	millis := kit.Pick(3000, 12000)
 	kit.SetRapid(kit.N(16, 200))
 	rapid.Check(t, kit.Prop("C14", func(t *rapid.T) {
@@ -68,4 +84,93 @@ func TestC14(t *testing.T) {
 		}
 		kit.SampleForce(map[string]interface{}{"config": cfg, "queries": res.Queries, "reloads": res.Reloads, "overlapped": res.Overlapped})
 	}))
+}
+
+// c14CatchUpStress: overlapping catch-ups of one RocksDB secondary (what timed-out
+// partial reloads amount to) while readers use the closest-key search, i.e. the
+// iterator pool being disabled / refilled by several goroutines at once.
+func c14CatchUpStress(t kit.Fataler, b kit.Backend, catchers, rounds int) {
+	cfg := stressCfg{Backend: b.String(), Workers: catchers, Millis: rounds, Reloads: []string{"concurrent-catch-up"}}
+	dir := kit.Scratch("c14pool")
+	defer os.RemoveAll(dir)
+	p, err := kit.Compile(kit.StampText(1, true), 1, dir, b, kit.DefaultCompile)
+	if err != nil {
+		kit.Fail(t, "C14", "setup-error", cfg, "compile: %v", err)
+		return
+	}
+	r, err := rdb.NewReader(p)
+	if err != nil {
+		kit.Fail(t, "C14", "setup-error", cfg, "open: %v", err)
+		return
+	}
+	var progress, lookups int64 // catch-ups completed, lookups completed
+	var firstErr atomic.Value
+	stop := make(chan struct{})
+	var readers, catch sync.WaitGroup
+	for g := 0; g < 4; g++ {
+		readers.Add(1)
+		go func(g int) {
+			defer readers.Done()
+			key := append([]byte("\x00o\x03com\x07example\x03www\x00"), 0, 0)
+			for {
+				select {
+				case <-stop:
+					return
+				default:
+				}
+				ctx := rdb.NewContext()
+				if _, _, err := r.FindClosest(key, ctx); err != nil {
+					firstErr.CompareAndSwap(nil, fmt.Sprintf("FindClosest: %v", err))
+					return
+				}
+				atomic.AddInt64(&lookups, 1)
+			}
+		}(g)
+	}
+	for g := 0; g < catchers; g++ {
+		catch.Add(1)
+		go func() {
+			defer catch.Done()
+			for i := 0; i < rounds; i++ {
+				if err := r.CatchWithPrimary(); err != nil {
+					firstErr.CompareAndSwap(nil, fmt.Sprintf("CatchWithPrimary: %v", err))
+					return
+				}
+				atomic.AddInt64(&progress, 1)
+			}
+		}()
+	}
+	done := make(chan struct{})
+	go func() { catch.Wait(); close(stop); readers.Wait(); close(done) }()
+	// both kinds of goroutine must keep making progress until the catch-ups are done
+	last, lastChange := int64(-1), time.Now()
+	lastL, lastLChange := int64(-1), time.Now()
+	for finished := false; !finished; {
+		select {
+		case <-done:
+			finished = true
+		case <-time.After(100 * time.Millisecond):
+			if n := atomic.LoadInt64(&progress); n != last {
+				last, lastChange = n, time.Now()
+			}
+			if n := atomic.LoadInt64(&lookups); n != lastL {
+				lastL, lastLChange = n, time.Now()
+			}
+			stuck := ""
+			if time.Since(lastChange) > 60*time.Second {
+				stuck = "no catch-up completed for 60 s"
+			} else if time.Since(lastLChange) > 60*time.Second && firstErr.Load() == nil {
+				stuck = "no closest-key lookup completed for 60 s"
+			}
+			if stuck != "" {
+				buf := make([]byte, 1<<20)
+				buf = buf[:runtime.Stack(buf, true)]
+				kit.Fail(t, "C14", "deadlock/"+b.String(), cfg, "overlapping catch-ups: %s (%d catch-ups, %d lookups done); goroutines:\n%s", stuck, last, lastL, buf)
+			}
+		}
+	}
+	_ = r.Close()
+	if e := firstErr.Load(); e != nil {
+		kit.Fail(t, "C14", "catch-up-error/"+b.String(), cfg, "%v", e)
+	}
 }
